@@ -309,7 +309,7 @@ def main(tier):
     byname = {h.name: h for h in hs}
     nval = validate_translator(hs, L.new_interp, nat)
     log("[C03] translator validation: %d concrete runs agree with the natively compiled code (%.0fs)" % (nval, time.time() - t0))
-    deadline = t0 + (900 if tier == "quick" else 3000)
+    deadline = time.time() + (1200 if tier == "quick" else 3000)      # for the exploration alone (builds depend on the machine's load)
     res = {}
     # harnesses with equal fan-out depth are explored together (one worker pool per group)
     for depth in sorted(set(h.depth for h in hs)):
